@@ -68,7 +68,7 @@ class C20(Prop):
                 scope = 'S'
             fns.append({'op': 'cpp.function', 'ret': gen_typedesc(rng, False), 'name': rng.choice(NAMES),
                         'params': [gen_param(rng) for _ in range(rng.randint(0, 5))], 'prefix': prefix,
-                        'cav': rng.choice(['', '', 'const']), 'override': rng.random() < 0.2, 'init': init,
+                        'cav': rng.choice(['', '', 'const', 'const', 'volatile', 'const volatile', 'noexcept', 'const noexcept', '&', 'const &&']), 'override': rng.random() < 0.2, 'init': init,
                         'contents': gen_contents(rng), 'scope': scope})
         for _ in range(n // 3):
             init = rng.choice(['', '', 'default', 'delete'])
